@@ -43,7 +43,7 @@ LegsL = Ty.List(Ty.Tuple([Int, Int]))
 HeapT = Ty.List(Ty.Tuple([Int, Int]))
 ProcT = ObjT("ContractionProcessor", {
     "nodes": Ty.Map(Int, LegsL), "edges": Ty.Map(Int, Ty.Set(Int)), "ssa": Int, "ssa_path": Ty.List(Ty.Tuple([Int, Int])),
-    "track_flops": Ty.Bool, "flops": Int, "flops_limit": Ty.Real, "flops_factor": Int, "appearances": Ty.List(Int), "sizes": Ty.List(Int)})
+    "track_flops": Ty.Bool, "flops": Int, "flops_limit": Ty.Real, "flops_factor": Int, "appearances": Ty.List(Int), "sizes": Ty.List(Int), "indmap": Ty.Map(Ty.Key, Int)})
 
 FRESH = "forall(keys(self.nodes), lambda n: n < self.ssa)"
 FRAME = ["self.ssa_path == old(self.ssa_path)", "self.appearances == old(self.appearances)", "self.sizes == old(self.sizes)"]
@@ -420,7 +420,27 @@ batch = Contract(
     # dropping batch indices never changes WHICH nodes are live, nor the recorded path
     ensures=["keys(self.nodes) == old(keys(self.nodes))", "self.ssa == old(self.ssa) and self.ssa_path == old(self.ssa_path)"],
 )
-CONTRACTS = [pop_node, add_node, contract_nodes, remaining, greedy, neighbors, scalars, remove_ix, batch]
+# ------------------------------------------------------------ copy
+copy_c = Contract(
+    target="cotengra.pathfinders.path_basic:ContractionProcessor.copy",
+    props=["C05"],
+    self_type=ProcT,
+    params={},
+    returns=ProcT,
+    externals={"ContractionProcessor.__new__": __import__("vt.pyvc.verify", fromlist=["_object_new"])._object_new},
+    # the copy (used once per trial by the random-greedy finder) describes the same state: same live nodes with the
+    # same legs, the same id counter (so ids handed out by the copy are fresh for it too), the same recorded path
+    ensures=[
+        "keys(result.nodes) == keys(self.nodes)",
+        "forall(keys(self.nodes), lambda n: result.nodes[n] == self.nodes[n])",
+        "result.ssa == self.ssa",
+        "len(result.ssa_path) == len(self.ssa_path) and forall(0, len(self.ssa_path), lambda q: result.ssa_path[q] == self.ssa_path[q])",
+        "result.appearances == self.appearances and result.sizes == self.sizes",
+        "result.flops == self.flops and result.flops_factor == self.flops_factor and result.track_flops == self.track_flops",
+        "keys(result.edges) == keys(self.edges)",
+    ],
+)
+CONTRACTS = [pop_node, add_node, contract_nodes, remaining, greedy, neighbors, scalars, remove_ix, batch, copy_c]
 
 
 # ------------------------------------------------------------ native side
@@ -526,7 +546,14 @@ def _gen_batch(rng):
     return {"self": cp, "args": (), "describe": f"inputs={inputs} output={output}"}
 
 
-greedy.gen, neighbors.gen, scalars.gen, remove_ix.gen, batch.gen = _gen_greedy, _gen_neighbors, _gen_scalars, _gen_remove_ix, _gen_batch
+def _gen_copy(rng):
+    cp, d = _processor(rng)
+    return {"self": cp, "args": (), "describe": d}
+
+
+greedy.gen, neighbors.gen, scalars.gen, remove_ix.gen, batch.gen, copy_c.gen = _gen_greedy, _gen_neighbors, _gen_scalars, _gen_remove_ix, _gen_batch, _gen_copy
+# natively also: the copy is independent (its own node table and path list)
+copy_c.ensures_rt = ["result.nodes is not self.nodes and result.ssa_path is not self.ssa_path and result.edges is not self.edges"]
 # natively: afterwards no index sits on every live node (unless there is a single node... the code's own criterion)
 batch.ensures_rt = ["all(len(ns) < len(self.nodes) for ns in self.edges.values())"]
 # afterwards no scalar is left unless everything was a scalar (then exactly one node is left)
